@@ -216,4 +216,7 @@ def register_dispatcher(reg, S):
                     Ghost("logger.warning(_unparsable_line_msg_tmpl.format(line, [t.__qualname__ for t in types]))", "g_at = append(g_at, -1)")],
             loops={0: LoopSpec(invariants=dispatcher_clauses(reg, paths, inv_lists, "_it"))},
             map_keys={"m": keys},
-            props=["C07", "C08", "C09", "C14", "C18"] + {"sync": ["C01", "C15"], "instrument": ["C02", "C03", "C04", "C05"], "globalevents": []}[label]))
+            props=["C07", "C08", "C09", "C14", "C18"] + {"sync": ["C01", "C15"], "instrument": ["C02", "C03", "C04", "C05"], "globalevents": []}[label],
+            clause_props={"sync": {"kind0": ["C01", "C15", "C08", "C14", "C18"], "kind1": ["C15", "C08", "C14", "C18"], "kind2": ["C08", "C14", "C18"], "conservation": ["C14", "C18"], "positions-length": ["C14", "C18"]},
+                          "instrument": {"kind0": ["C02", "C03", "C04", "C05", "C07", "C14", "C18"], "kind1": ["C05", "C07", "C14", "C18"], "kind2": ["C07", "C14", "C18"], "conservation": ["C14", "C18"], "positions-length": ["C14", "C18"]},
+                          "globalevents": {}}[label]))
